@@ -134,6 +134,20 @@ def settleConnect (s : Sys) (cslot : Nat) (c : Connecting) (k : Kernel) (r : Res
   | .err e =>
     ({ (s.setKernel c.host (k.close c.fd)) with connecting := eraseKey s.connecting cslot }, [.err e])
 
+/-- `Fabric::egress_all`: every host in insertion order. -/
+def egressAll (cfg : Cfg) : List Kernel → List Kernel × List Packet
+  | [] => ([], [])
+  | k :: ks =>
+    let r := k.egress cfg
+    let rest := egressAll cfg ks
+    (r.1 :: rest.1, r.2 ++ rest.2)
+
+/-- The harness numbers every egressed packet; TCP packets go onto the wire, UDP datagrams are only
+    reported. -/
+def wireStep (acc : List (Nat × Packet) × List Obs × Nat) (p : Packet) : List (Nat × Packet) × List Obs × Nat :=
+  if p.udp.isSome then (acc.1, acc.2.1 ++ [.pkt acc.2.2 p], acc.2.2 + 1)
+  else (acc.1 ++ [(acc.2.2, p)], acc.2.1 ++ [.pkt acc.2.2 p], acc.2.2 + 1)
+
 def step (s : Sys) : Op → Sys × List Obs
   | .listen h lslot addr =>
     let k := s.kernel h
@@ -227,16 +241,9 @@ def step (s : Sys) : Op → Sys × List Obs
       | (k1, .pending) => (s.setKernel h k1, [.pending])
       | (k1, .err e) => (s.setKernel h k1, [.err e])
   | .egress =>
-    -- `Fabric::egress_all`: every host in insertion order
-    let (ks, out) := s.kernels.foldl (fun (acc : List Kernel × List Packet) k =>
-        let (k', o) := k.egress s.cfg
-        (acc.1 ++ [k'], acc.2 ++ o)) ([], [])
-    -- UDP datagrams are reported and discarded by the harness; TCP packets go onto the wire
-    let (wire', obs, nxt) := out.foldl (fun (acc : List (Nat × Packet) × List Obs × Nat) p =>
-        let (w, ob, n) := acc
-        if p.udp.isSome then (w, ob ++ [.pkt n p], n + 1)
-        else (w ++ [(n, p)], ob ++ [.pkt n p], n + 1)) (s.wire, [], s.nextPkt)
-    ({ s with kernels := ks, wire := wire', nextPkt := nxt }, if obs.isEmpty then [.nothing] else obs)
+    let r := egressAll s.cfg s.kernels
+    let w := r.2.foldl wireStep (s.wire, [], s.nextPkt)
+    ({ s with kernels := r.1, wire := w.1, nextPkt := w.2.2 }, if w.2.1.isEmpty then [.nothing] else w.2.1)
   | .deliver id =>
     match s.wire.lookup id with
     | none => (s, [.badop])
